@@ -312,7 +312,8 @@ def run(ctx):
     ctx.notes["table_rows_symbolic_sizes"] = sum(1 for r_ in rows + rep if any(r_["hg"]))
     if not rep or ctx.notes["table_rows_symbolic_sizes"] < 100:
         raise Infra("the table contains no calls with sizes beyond every string")
-    go("table_repeat_huge", [[row_to_line(r_)] for r_ in sorted(rep, key=lambda r_: r_["hg"][0])],
+    # counts near SIZE_MAX first: there a loop over the count cannot end, while 2^31 iterations merely take seconds
+    go("table_repeat_huge", [[row_to_line(r_)] for r_ in sorted(rep, key=lambda r_: (not r_["hg"][0].startswith("SIZE_MAX"), r_["hg"][0]))],
        harness=lambda s_, l_: ctx.run([exe, s_, l_], timeout=5), max_parts=2)
     execs = chunk([row_to_line(r_) for r_ in rows], 200)
     ctx.sample({"source": "TLC table (Gen_SimpleStr)", "execution": ["\t".join(map(str, l)) for l in execs[0][:8]]})
